@@ -1,6 +1,6 @@
 (* Properties/C13.v — vertices arriving before their parents are parked and later admitted. *)
-From Verif Require Import U64 Spice SpiceP RepoConstants Ledger ListFacts LedgerInv LedgerGraph Ancestors LedgerFunds LedgerReach TruncateP LoadWitness.
-From Coq Require Import NArith.
+From Verif Require Import U64 Spice SpiceP RepoConstants Ledger ListFacts LedgerInv LedgerGraph Ancestors LedgerFunds LedgerReach TruncateP LoadWitness AdmitP Confluence.
+From Coq Require Import NArith Permutation.
 
 (* A vertex whose (left) parent is still unknown is reported as "parent missing" and parked exactly
    once, with its retry counter bumped; nothing else in the ledger changes. *)
@@ -53,3 +53,64 @@ Theorem C13_order_independence_refuted :
   (let '(L, rs) := deliver o_G [o_A; o_B; o_D; o_C] in (rs, map nhash (dag L))) = ([ROk; ROk; ROk; ROk], [13; 14; 12; 11; 10]%N).
 Proof. exact order_of_independent_vertices_matters. Qed.
 Print Assumptions C13_order_independence_refuted.
+
+(* "... and admitted automatically once its parents are present": the retry tick that reaches a parked vertex whose
+   parents have arrived - each either confirmed already or passing validation now - inserts it with edges from exactly
+   its declared parents, indexes its transaction, removes it from the buffer and touches no other vertex. *)
+Theorem C13_parked_vertex_admitted_once_parents_present : forall L v rep rest p1 p2,
+  parked L = (v, rep) :: rest ->
+  N.eqb (t_issuer (v_trx v)) (genesis L) = false ->
+  (N.eqb (t_receiver (v_trx v)) (genesis L) && is_spice (v_trx v)) = false ->
+  live L (v_hash v) = false -> stored L (v_hash v) = false -> has_trx L (t_hash (v_trx v)) = false -> v_ok v = true ->
+  find_node (v_left v) (dag L) = Some p1 -> find_node (v_right v) (dag L) = Some p2 ->
+  parent_fine L (v_left v) p1 -> parent_fine (after_parent L (v_left v) p1) (v_right v) p2 ->
+  exists L', retry_one L None = (L', Some ROk) /\
+    parked L' = rest /\
+    find_node (v_hash v) (dag L') = Some (Node v (dedup_adj [v_left v; v_right v])) /\
+    assoc (t_hash (v_trx v)) (index L') = Some (v_hash v) /\
+    (forall h, h <> v_hash v -> find_node h (dag L') = find_node h (dag L)).
+Proof. exact parked_admitted_once_parents_present. Qed.
+Print Assumptions C13_parked_vertex_admitted_once_parents_present.
+
+(* ... and a parent tip passes validation whenever it is inside the weight window, verified and - for an ordinary
+   spice transfer - covered in its own history with representable sums (the converse of C01_validation_sound):
+   a valid vertex is never refused for funds it has. *)
+Theorem C13_valid_parent_passes : forall L n,
+  amounts_canon L -> In n (dag L) -> valid_weight L (v_weight (nv n)) = true -> v_ok (nv n) = true ->
+  tip_condition L n -> validate L n None = (VOk, None).
+Proof. exact validate_complete. Qed.
+Print Assumptions C13_valid_parent_passes.
+
+(* "If the vertices of a valid history reach a node in any order, the node ends with exactly the ledger it would have had
+   with parents-first delivery": for every set S that is new to the ledger and closed under parents (it has SOME
+   parents-first order T), every schedule that delivers each vertex of S once - in ANY order, with retry ticks anywhere -
+   within the buffer and retry bounds, followed by drain_k further ticks: if no examined parent tip is refused along
+   the way (the valid-history premise; C13_valid_parent_passes says when a tip passes; the refutation above shows an
+   order-dependent refusal), then the buffer ends empty and the graph holds exactly S on top of what was there - each
+   vertex once, with edges from exactly its declared parents, its transaction indexed. *)
+Theorem C13_any_order_all_admitted : forall (L0 : ledger) (S T : list vertex) (ops : list op),
+  S_ok L0 S -> Permutation T S -> topo L0 [] T -> parked L0 = [] ->
+  Permutation (delivered ops) S ->
+  Z.of_nat (length S) < maxArraySize ->
+  1 + Z.of_nat (nticks ops) + Z.of_nat (length S) <= maxRepeats ->
+  let sched := ops ++ ticks (drain_k L0 S ops) in
+  fine_runb L0 sched = true ->
+  let L' := mrun L0 sched in
+  exists A, parked L' = [] /\ Permutation A S /\ dag L' = map node_of A ++ dag L0 /\ index L' = map ix A ++ index L0.
+Proof. exact any_order_all_admitted. Qed.
+Print Assumptions C13_any_order_all_admitted.
+
+(* ... hence any two such schedules - e.g. an arbitrary one and the parents-first one - end with the same vertices,
+   edges and index entries. *)
+Theorem C13_any_two_orders_agree : forall (L0 : ledger) (S T : list vertex) (ops1 ops2 : list op),
+  S_ok L0 S -> Permutation T S -> topo L0 [] T -> parked L0 = [] -> Z.of_nat (length S) < maxArraySize ->
+  Permutation (delivered ops1) S -> 1 + Z.of_nat (nticks ops1) + Z.of_nat (length S) <= maxRepeats ->
+  Permutation (delivered ops2) S -> 1 + Z.of_nat (nticks ops2) + Z.of_nat (length S) <= maxRepeats ->
+  let s1 := ops1 ++ ticks (drain_k L0 S ops1) in let s2 := ops2 ++ ticks (drain_k L0 S ops2) in
+  fine_runb L0 s1 = true -> fine_runb L0 s2 = true ->
+  exists A1 A2, Permutation A1 A2 /\
+    dag (mrun L0 s1) = map node_of A1 ++ dag L0 /\ dag (mrun L0 s2) = map node_of A2 ++ dag L0 /\
+    index (mrun L0 s1) = map ix A1 ++ index L0 /\ index (mrun L0 s2) = map ix A2 ++ index L0 /\
+    parked (mrun L0 s1) = [] /\ parked (mrun L0 s2) = [].
+Proof. exact any_two_orders_agree. Qed.
+Print Assumptions C13_any_two_orders_agree.
